@@ -89,10 +89,26 @@ def extras_doc(keys: list[str]) -> dict:
     return {"title": "Model", "type": "object", "properties": {"a": prop, "b": {"type": "integer", keys[0]: "z"}}, "required": ["a"]}
 
 
+def keyword_key_groups() -> list[list[str]]:
+    """extra keys that ARE identifiers for str.isidentifier but not usable as keyword names: every Python keyword (several
+    are JSON Schema's own: not / if / else), the soft keywords, and their x- forms — minus the keys the JSON-Schema parser
+    reads itself (those are no extras)"""
+    import keyword
+
+    from .c10_keys import schema_keywords
+
+    known = schema_keywords()
+    kws = [k for k in sorted(keyword.kwlist) + sorted(getattr(keyword, "softkwlist", [])) if k not in known]
+    groups = [kws[i:i + 6] for i in range(0, len(kws), 6)]
+    return groups + [["x-not", "x-class", "x-None", "x-match"], ["not", "if", "else", "x-note"]]
+
+
 def campaign_field_extras(ck: Check, run_case) -> None:
-    camp = ck.campaign("e2e: x- keywords on properties whose remainder is not an identifier × field_extra_keys / field_extra_keys_without_x_prefix / field_include_all_keys, all model kinds")
+    camp = ck.campaign("e2e: extra keys on properties that are no usable keyword names (x- keywords whose remainder is not an identifier; Python keywords and "
+                       "soft keywords) × field_extra_keys / field_extra_keys_without_x_prefix / field_include_all_keys, all model kinds")
     t0 = time.time()
     groups = [EXTRA_KEYS[:4], EXTRA_KEYS[4:], [EXTRA_KEYS[0]], [EXTRA_KEYS[1]], [EXTRA_KEYS[2]], [EXTRA_KEYS[3]]]
+    groups += keyword_key_groups()
     for keys in groups:
         for mk in EXTRA_OPTION_VECTORS:
             for model in e2e.MODEL_KINDS:
